@@ -805,6 +805,33 @@ pub fn gen(stream: &str, tier: &str, seed: u64, out: &mut dyn Write) -> bool {
         "C16-stack" => {
             let n = if thorough { 100000 } else { 40000 };
             let _ = writeln!(out, "{}", parse_line("file", &format!("const i64 c = {}7", "-".repeat(n))));
+            // flat documents (bracket nesting <= 2) that are long in ONE direction, each about 64 KiB (thorough: 4x): stack use must
+            // not grow with the length of a run of blanks / comments / items / fields / elements / characters
+            let k = if thorough { 4 } else { 1 };
+            let docs: Vec<String> = vec![
+                format!("{}struct S {{ 1: i32 a }}", "// c\n".repeat(13000 * k)),
+                format!("{}struct S {{ 1: i32 a }}", "# c\n".repeat(16000 * k)),
+                format!("{}struct S {{ 1: i32 a }}", "/**/ ".repeat(13000 * k)),
+                format!("struct S {{ 1: i32 a {} 2: i32 b }}", " \t\n/*x*/\n#y\n//z\n".repeat(4000 * k)),
+                format!("struct S {{ 1: i32 a }}{}", " \n".repeat(32000 * k)),
+                format!("struct S {{ {} }}", (0..4000 * k).map(|i| format!("{}: i32 f{},", i + 1, i)).collect::<String>()),
+                format!("enum E {{ {} }}", (0..6000 * k).map(|i| format!("V{} = {},", i, i)).collect::<String>()),
+                (0..3000 * k).map(|i| format!("typedef i32 T{}\n", i)).collect::<String>(),
+                format!("const list<i32> L = [{}]", "1,".repeat(30000 * k)),
+                format!("const map<i32,i32> M = {{{}}}", "1:1,".repeat(15000 * k)),
+                format!("const string S = \"{}\"", "x".repeat(64000 * k)),
+                format!("const string S = '{}'", "\\\\".repeat(30000 * k)),
+                format!("service Svc {{ {} }}", (0..2500 * k).map(|i| format!("void f{}(1: i32 a),", i)).collect::<String>()),
+                format!("service Svc {{ void f({}) }}", (0..4000 * k).map(|i| format!("{}: i32 a{},", i + 1, i)).collect::<String>()),
+                format!("struct S {{ 1: i32 a ({}) }}", (0..3000 * k).map(|i| format!("k{} = \"v\",", i)).collect::<String>()),
+                format!("struct {} {{ 1: i32 a }}", "x".repeat(64000 * k)),
+                format!("struct S {{ 1: {} a }}", "a.".repeat(30000 * k) + "T"),
+                format!("const double D = {}.5", "9".repeat(60000 * k)),
+                format!("const i64 I = {}", "9".repeat(60000 * k)),
+                format!("namespace rs {}", "a.".repeat(30000 * k) + "b"),
+                (0..2500 * k).map(|i| format!("include \"f{}.thrift\"\n", i)).collect::<String>(),
+            ];
+            for d in &docs { let _ = writeln!(out, "{}", parse_line("file", d)); }
             true
         }
         "IDLUNICODE" => {
